@@ -19,9 +19,9 @@ type c08Case struct {
 	Proj   *project `json:"proj"`
 	Cmd    string   `json:"cmd"` // update | format | compare | compare-github
 	Orders [][]int  `json:"orders"`
-	Leak   string   `json:"leak,omitempty"` // "", stash, definition, flags
+	Leak   string   `json:"leak,omitempty"`  // "", stash, definition, flags
 	Fresh  int      `json:"fresh,omitempty"` // compare only: this many units (in walk order) are updated first, so that stale and current rules are mixed
-	Pad    int      `json:"pad,omitempty"`  // 1, 2: chain offsets in file names are written with leading zeros; 3: offset 0 is written as -chain0
+	Pad    int      `json:"pad,omitempty"`   // 1, 2: chain offsets in file names are written with leading zeros; 3: offset 0 is written as -chain0
 }
 
 var reCompareBlock = regexp.MustCompile(`(?m)^Regex of (\d{6}) has (not changed|changed!)`)
